@@ -244,8 +244,23 @@ func init() {
 			}
 			return strings.LastIndex(str(a[0]), str(a[1]))
 		},
-		"strings.ToUpper": func(fr *frame, a []value) value { return strings.ToUpper(str(a[0])) },
-		"strings.Compare": func(fr *frame, a []value) value { return strings.Compare(str(a[0]), str(a[1])) },
+		"strings.ToUpper":      func(fr *frame, a []value) value { return strings.ToUpper(str(a[0])) },
+		"strings.Compare":      func(fr *frame, a []value) value { return strings.Compare(str(a[0]), str(a[1])) },
+		"strings.Fields":       func(fr *frame, a []value) value { return toValSlice(strings.Fields(str(a[0]))) },
+		"strings.TrimSpace":    func(fr *frame, a []value) value { return strings.TrimSpace(str(a[0])) },
+		"strings.TrimPrefix":   func(fr *frame, a []value) value { return strings.TrimPrefix(str(a[0]), str(a[1])) },
+		"strings.TrimSuffix":   func(fr *frame, a []value) value { return strings.TrimSuffix(str(a[0]), str(a[1])) },
+		"strings.Trim":         func(fr *frame, a []value) value { return strings.Trim(str(a[0]), str(a[1])) },
+		"strings.TrimLeft":     func(fr *frame, a []value) value { return strings.TrimLeft(str(a[0]), str(a[1])) },
+		"strings.TrimRight":    func(fr *frame, a []value) value { return strings.TrimRight(str(a[0]), str(a[1])) },
+		"strings.Title":        func(fr *frame, a []value) value { return strings.Title(str(a[0])) },
+		"strings.SplitN":       func(fr *frame, a []value) value { return toValSlice(strings.SplitN(str(a[0]), str(a[1]), a[2].(int))) },
+		"strings.ReplaceAll":   func(fr *frame, a []value) value { return strings.ReplaceAll(str(a[0]), str(a[1]), str(a[2])) },
+		"strings.ContainsRune": func(fr *frame, a []value) value { return strings.ContainsRune(str(a[0]), a[1].(int32)) },
+		"strings.ContainsAny":  func(fr *frame, a []value) value { return strings.ContainsAny(str(a[0]), str(a[1])) },
+		"strings.IndexAny":     func(fr *frame, a []value) value { return strings.IndexAny(str(a[0]), str(a[1])) },
+		"strings.IndexRune":    func(fr *frame, a []value) value { return strings.IndexRune(str(a[0]), a[1].(int32)) },
+		"strings.EqualFold":    func(fr *frame, a []value) value { return strings.EqualFold(str(a[0]), str(a[1])) },
 		"strings.NewReader": func(fr *frame, a []value) value {
 			var c value = &nativeObj{strings.NewReader(str(a[0]))}
 			return &c
